@@ -1,11 +1,10 @@
-"""Per-property configuration for bin/check."""
+"""C17 configuration for bin/check."""
 
-PROPS = {
-    "C17": {
+CFG = {
         "tier_a": ["UFSeq"],
         "model_targets": ["UF/Ops.vo"],
         "proof_targets": ["Props/C17.vo"],
-        "harness": [{"sub": "uf", "prefix": "cases_uf"}],
+        "harness": [{"bin": "h_uf", "prefix": "cases_uf"}],
         "trusted": [
             "translator /verif/translator (Rust subset -> Gallina over Res; emitted gen/UFSeq.v is what the theorems are about)",
         ],
@@ -15,5 +14,4 @@ PROPS = {
             "ids are modelled as unbounded nat (u32/usize exhaustion not modelled)",
             "Vec indexing out of bounds is modelled as Panic and proved not to occur",
         ],
-    },
-}
+    }
